@@ -46,6 +46,8 @@ def xml_tree(xml):
 
     def walk(el, par):
         tag = el.tag.replace(NS, "")
+        if tag == "scxml" and par is not None:
+            return   # a nested <scxml> element is another machine (or garbage), not a state of this one
         if tag in ("scxml", "state", "parallel", "final"):
             n = name(el)
             if n is None:
